@@ -61,6 +61,9 @@ TARGETS = [
     ('cardutil/pinblock.py', 'Iso4PinBlock.to_bytes', {}, 'bytes'),
     ('cardutil/pinblock.py', 'Iso4PinBlock.from_bytes', {}, 'str',
      {'classmethod': True, 'params': [('pin_block', 'bytes')]}),
+    # BitArray with its default big-endian order (`self.endian` is read from the class attribute; both call sites use it)
+    ('cardutil/BitArray.py', 'BitArray.tolist', {}, ('list', 'bool'), {'readonly': True}),
+    ('cardutil/BitArray.py', 'BitArray.fromlist', {'bytelist': ('list', 'bool')}, None),
     # FRAGMENTS of functions whose other statements call the cipher library: the decimalisation at the end of
     # calculate_pvv (from the first assignment to values_pass1, with the ciphertext `ct` as parameter), and the
     # combination loop at the start of get_zone_master_key (up to the assignment to binary_key, returning p1)
@@ -78,6 +81,7 @@ SELF_STATE = {'Block1014': {'fields': [('remaining_chars', 'int')], 'sink': 'fil
               'VbsReader': {'fields': [('record_number', 'int'), ('last_record', 'bytes')], 'source': 'vbs_data',
                             'signals': True},
               'VbsWriter': {'fields': [('_finalised', 'bool')], 'file': 'out_file'},
+              'BitArray': {'fields': [('bytes', 'bytes')]},
               'Iso0PinBlock': {'fields': [('pin', 'str'), ('card_number', 'str')], 'readonly': True},
               'Iso4PinBlock': {'fields': [('pin', 'str'), ('random_value', 'int')], 'readonly': True}}
 
@@ -342,6 +346,11 @@ class Translator:
             if rt in ('str', 'bytes', 'char', 'byte') and lt == 'int':
                 want = 'str' if rt in ('str', 'char') else 'bytes'
                 return f'(Rt.mulSeq {self.coerce(rc, rt, want)} {lc})', want
+        if isinstance(op, ast.FloorDiv) and lt == 'int' and rt == 'int':
+            n = self.const_int(node.right)
+            if n is None or n <= 0:
+                raise Untranslatable('// with a divisor that is not a positive literal')
+            return f'({lc} / {rc})', 'int'        # Int division rounds down for a positive divisor, like //
         if isinstance(op, ast.Mod) and lt == 'int' and rt == 'int':
             n = self.const_int(node.right)
             if n is None or n <= 0:
@@ -445,9 +454,23 @@ class Translator:
             if f.attr == 'to_bytes':
                 c, t = self.expr(f.value, env)
                 n = self.const_int(node.args[0])
-                if t != 'int' or n is None or n <= 0:
-                    raise Untranslatable('to_bytes needs an int and a positive literal size')
-                return self.hoist(f'(Rt.toBytes {n} {c})', 'bytes')
+                if t != 'int':
+                    raise Untranslatable('to_bytes of a non-int')
+                if n is not None and n > 0:
+                    return self.hoist(f'(Rt.toBytes {n} {c})', 'bytes')
+                nc, nt = self.expr(node.args[0], env)
+                if nt != 'int':
+                    raise Untranslatable('to_bytes with a size that is not an int')
+                return self.hoist(f'(Rt.toBytes ({nc}).toNat {c})', 'bytes')
+        if isinstance(f, ast.Attribute) and f.attr == 'format' and isinstance(f.value, ast.Constant) \
+                and f.value.value == '{bytes:0{width}b}' and not node.args \
+                and sorted(k.arg for k in node.keywords) == ['bytes', 'width']:
+            kw = {k.arg: k.value for k in node.keywords}
+            v, vt = self.expr(kw['bytes'], env)
+            w, wt = self.expr(kw['width'], env)
+            if vt != 'int' or wt != 'int':
+                raise Untranslatable('binary format of non-ints')
+            return f'(Rt.fmtBinW {w} {v})', 'str'
         if node.keywords:
             raise Untranslatable('keyword arguments')
         if isinstance(f, ast.Name):
@@ -479,6 +502,16 @@ class Translator:
                 if t in ('str', 'char', 'asciibytes'):
                     return self.hoist(f'(Rt.intHex {self.coerce(c, "str" if t == "asciibytes" else t, "str")})', 'int')
                 raise Untranslatable(f'int(_, 16) of {t}')
+            if name == 'int' and len(args) == 2 and self.const_int(args[1]) == 2:
+                c, t = self.expr(args[0], env)
+                if t in ('str', 'char'):
+                    return self.hoist(f'(Rt.intBin {self.coerce(c, t, "str")})', 'int')
+                raise Untranslatable(f'int(_, 2) of {t}')
+            if name == 'array' and len(args) == 2 and isinstance(args[0], ast.Constant) and args[0].value == 'B':
+                c, t = self.expr(args[1], env)
+                if t not in ('bytes', 'asciibytes'):
+                    raise Untranslatable('array("B", x) of a non-bytes value')
+                return c, 'bytes'       # an array of unsigned bytes: the same sequence
             if name == 'format' and len(args) == 2 and isinstance(args[1], ast.Constant) and args[1].value == 'x':
                 c, t = self.expr(args[0], env)
                 if t != 'int':
@@ -582,6 +615,8 @@ class Translator:
                     return f'(Rt.joinStr {c})', 'str'
                 raise Untranslatable(f'join of {t}')
             c, t = self.expr(f.value, env)
+            if f.attr == 'tobytes' and not node.args and t == 'bytes':
+                return c, 'bytes'
             if f.attr == 'isalpha' and not node.args and t == 'char':
                 return f'(Rt.isAlphaAscii {c})', 'bool'
             if f.attr == 'isdigit' and not node.args and t == 'char':
@@ -872,6 +907,13 @@ class Translator:
             if not loop:
                 raise Untranslatable('continue outside a loop')
             return self.loop_end(loop)
+        if isinstance(s, ast.If) and isinstance(s.test, ast.Compare) and len(s.test.ops) == 1 \
+                and isinstance(s.test.ops[0], (ast.Eq, ast.NotEq)) and isinstance(s.test.left, ast.Constant) \
+                and isinstance(s.test.comparators[0], ast.Constant):
+            # a test between two literals (a class attribute compared with a literal): only the live branch exists
+            same = s.test.left.value == s.test.comparators[0].value
+            live = s.body if same == isinstance(s.test.ops[0], ast.Eq) else s.orelse
+            return self.stmts(live + rest, env, ret, loop)
         if isinstance(s, ast.If):
             def go():
                 c = self.cond(s.test, env)
@@ -1001,7 +1043,7 @@ def translate_function(mod_ast, fdef, ptypes, ret, known, cls=None, opts=None):
     body = fdef.body
     if 'fragment' in opts:
         body = fragment_of([st for st in body], opts['fragment'])
-    readonly = cls is not None and (opts.get('classmethod') or SELF_STATE.get(cls, {}).get('readonly'))
+    readonly = cls is not None and (opts.get('classmethod') or opts.get('readonly') or SELF_STATE.get(cls, {}).get('readonly'))
     if readonly:
         if opts.get('classmethod'):
             if not arglist or arglist[0].arg != 'cls':
